@@ -269,7 +269,15 @@ def gen_case(rng):
         for f in range(11):
             if rng.random() < 0.5:
                 flags[f] = rng.random() < 0.5
-    return {'script': script, 'cache': cache, 'flags': flags}
+    # the limits the verifier configured for the run (they bound the stack,
+    # not what the embedder put into the cache)
+    limits = None
+    if rng.random() < 0.5:
+        limits = [rng.choice((1, 2, 3, 5, 8, 16, 1024)),
+                  rng.choice((8, 32, 64, 1024, 4096)),
+                  rng.choice((1, 4, 128))]
+    return {'script': script, 'cache': cache, 'flags': flags,
+            'limits': limits}
 
 
 def str_part(d):
@@ -292,7 +300,15 @@ def judge(ctx, case):
     tape = functions.Tape(script)
     tape.contracts = {CID: Recorder()}
     tape.plugins = {k: list(v) for k, v in functions._plugins.items()}
+    lim = case.get('limits')
+    kw = {}
     stack = functions.Stack()
+    if lim:
+        kw = {'stack_max_items': lim[0], 'stack_max_item_size': lim[1],
+              'callstack_limit': lim[2]}
+        stack = functions.Stack(max_items=lim[0], max_item_size=lim[1])
+        tape.callstack_limit = lim[2]
+        ctx.count('runs_under_configured_limits')
     exc = None
     try:
         functions.run_tape(tape, stack, rec, additional_flags=dict(flags))
@@ -345,7 +361,7 @@ def judge(ctx, case):
     before = copy.deepcopy(caller)
     try:
         _, _, out = functions.run_script(script, caller, {CID: Recorder()},
-                                         additional_flags=dict(flags))
+                                         additional_flags=dict(flags), **kw)
         want = {'timestamp': env.NOW0, **before}
         for k, v in str_part(want).items():
             if k not in out or not same(out[k], v):
@@ -363,7 +379,7 @@ def judge(ctx, case):
                       repr(caller)[:120])
         return
     try:
-        functions.run_auth_scripts([script], caller, {CID: Recorder()})
+        functions.run_auth_scripts([script], caller, {CID: Recorder()}, **kw)
     except BaseException as e:
         ctx.violation('auth-raised', 'run_auth_scripts raised', case, 'bool',
                       repr(e)[:100])
